@@ -17,6 +17,10 @@ def oversized_head(good_fields_hex, n=70):
     return hx([0x01] + varint(len(sec)) + list(sec))
 
 
+# reset / stop codes: small numbers, every defined HTTP/3 error code (0x100 H3_NO_ERROR … 0x110), the QPACK codes, the largest varint
+CODES = [0, 7, 9] + list(range(0x100, 0x111)) + [0x200, 0x201, 0x202, 2**62 - 1]
+
+
 class C07(Prop):
     id = "C07"
     modules = ["H3.Props.C07"]
@@ -189,10 +193,10 @@ class C07(Prop):
                 ops = opener + ["f%d" % sid, recv_head]
             elif kind == "reset":
                 cut = rng.randrange(0, len(wire) // 2 + 1) * 2
-                code = rng.choice([0, 7, 268, 2**62 - 1])
+                code = rng.choice(CODES)
                 ops = opener + (self.chunks(sid, wire[:cut], rng) if cut else []) + [recv_head, "q%d.rm" % sid, "r%d:%d" % (sid, code)] + send
             elif kind == "stop":
-                code = rng.choice([0, 9, 267])
+                code = rng.choice(CODES)
                 ops = opener + ["x%d:%d" % (sid, code)] + self.chunks(sid, wire, rng) + ["f%d" % sid, recv_head, "q%d.rm" % sid] + send
             else:
                 ops = opener + self.chunks(sid, wire, rng) + ["f%d" % sid, recv_head, "q%d.rm" % sid] + send
@@ -209,6 +213,12 @@ class C07(Prop):
         while any(seqs):
             s = rng.choice([q for q in seqs if q])
             merged.append(s.pop(0))
+        # client: a request started AFTER the faults have been reported must be as healthy as any other
+        if not server and rng.random() < 0.6:
+            sid = 4 * k
+            body = [rng.getrandbits(8) for _ in range(rng.choice([0, 3, 17]))]
+            wire = good + (hx([0x00] + varint(len(body)) + body) if body else "")
+            merged += ["snd.R:GET:%s:-" % URI] + self.chunks(sid, wire, rng) + ["f%d" % sid, "q%d.rr" % sid, "q%d.rm" % sid, "q%d.fi" % sid]
         return "iso %s %s %s" % (role, cfg, " ".join(merged))
 
     def cases(self, tier, rng):
